@@ -179,48 +179,61 @@ static unsigned int nwr;
 static unsigned int dpos, dcount; static int msg_bad;      /* reference decoder cursor */
 static int from_bad, to_bad, rh_bad, rh_said_trouble, write_failed; static unsigned int n_to, n_rh;
 static char *close_result = "?";
-static int rs, rbad, rfirst; static unsigned long rval; static unsigned int rdigits, rleft, nrep, nK; static char rclass[MAXR];
+static int rbad, reply_bad; static unsigned int nrep, nK; static char rclass_seen;
 static unsigned int outcount, flushed;
 
-/* ---- streams */
+/* ---- streams: ideal substdio at chunk granularity (same contract as lib/ideal_substdio.c:
+ * put appends exactly the given bytes, get delivers the next byte; defined here because the
+ * reply recogniser must see whole chunks - per byte it is inlined ~70 times per reply and
+ * unrolled call site, which does not fit).  qmail-qmtpd emits every reply netstring with
+ * one substdio_put/puts call; that is checked, not assumed. */
 ssize_t vf_read(int fd, void *buf, size_t len)
 {
   CHECK(fd == 0 && len >= 1, "request is read from descriptor 0");
+  /* the connection carries at most one package: after it the client has gone */
+  if (n_close) return 0;
   if (inpos >= N) return 0;                    /* client has gone */
   *(unsigned char *) buf = in[inpos++];
   return 1;
 }
 ssize_t vf_write(int fd, const void *buf, size_t len) { CHECK(0, "write() only through the ideal stream"); return -1; }
 
-int ideal_getc(substdio *s)
+ssize_t substdio_get(substdio *s, char *buf, size_t len)
 {
-  char c; ssize_t r;
-  CHECK(s == &ssin && s->op == saferead, "input is read through saferead");
-  r = saferead(0, &c, 1);
-  if (r != 1) return -1;
-  return (unsigned char) c;
+  CHECK(s == &ssin && s->op == saferead && len == 1, "input is read byte by byte through saferead");
+  return saferead(0, buf, 1);
 }
 
-int ideal_putc(substdio *s, unsigned char c)
+static char expected_class(unsigned int j)
 {
+  /* replies follow qmail_close, so its result is known here */
+  char good = close_result[0] ? close_result[0] : 'K';
+  if (R.status != 2 || j >= R.nr || j >= MAXR || n_close != 1) return '?';
+  if (!R.ok[j]) return 'D';
+  if (R.sender_bad || R.too_big) {
+    /* policy refusal and independent queue trouble at once: either class is right */
+    if ((qstatus != 0 || write_failed) && rclass_seen == close_result[0]) return close_result[0];
+    return 'D';
+  }
+  return good;
+}
+
+int substdio_put(substdio *s, const char *b, size_t len)
+{
+  unsigned int i = 0, v = 0, nd = 0, k;
   CHECK(s == &ssout, "replies go to descriptor 1");
   ++outcount;
-  switch (rs) {
-    case 0:
-      if (c >= '0' && c <= '9') { rval = rval * 10 + (c - '0'); ++rdigits; if (rdigits > 4) rbad = 1; }
-      else if (c == ':' && rdigits > 0 && rval > 0) { rs = 1; rleft = (unsigned int) rval; rfirst = 1; }
-      else rbad = 1;
-      break;
-    case 1:
-      if (rfirst) { if (nrep < MAXR) rclass[nrep] = (char) c; if (c == 'K') ++nK; rfirst = 0; }
-      if (--rleft == 0) rs = 2;
-      break;
-    default:
-      if (c == ',') { ++nrep; rs = 0; rval = 0; rdigits = 0; } else rbad = 1;
+  for (k = 0; k < 3; ++k) {
+    if (i < len && b[i] >= '0' && b[i] <= '9') { v = v * 10 + (unsigned int) (b[i] - '0'); ++i; ++nd; } else break;
   }
+  if (nd == 0 || v == 0 || i >= len || b[i] != ':' || (size_t) i + 1 + v + 1 != len || b[len - 1] != ',') { rbad = 1; ++nrep; return 0; }
+  rclass_seen = b[i + 1];
+  if (rclass_seen == 'K') ++nK;
+  if (rclass_seen != expected_class(nrep)) reply_bad = 1;
+  ++nrep;
   return 0;
 }
-int ideal_flush(substdio *s) { if (s == &ssout) flushed = outcount; return 0; }
+int substdio_flush(substdio *s) { if (s == &ssout) flushed = outcount; return 0; }
 
 /* ---- environment */
 void sig_pipeignore(void) {}
@@ -338,23 +351,6 @@ void received(struct qmail *q, char *protocol, char *local, char *rip, char *rho
   ++n_received;
 }
 
-static int replies_as_expected(int queued)
-{
-  unsigned int i;
-  char good = queued ? 'K' : close_result[0];
-  char alt;
-  if (R.sender_bad || R.too_big) good = 'D';
-  /* policy refusal and independent queue trouble at once: either class is right */
-  alt = (qstatus != 0 || write_failed) ? close_result[0] : good;
-  if (nrep != R.nr) return 0;
-  for (i = 0; i < MAXR; ++i) {
-    if (i >= R.nr) break;
-    if (R.ok[i]) { if (rclass[i] != good && rclass[i] != alt) return 0; }
-    else if (rclass[i] != 'D') return 0;
-  }
-  return 1;
-}
-
 void vf__exit(int status)
 {
   int queued = n_close == 1 && close_result[0] == 0;
@@ -367,12 +363,12 @@ void vf__exit(int status)
   CHECK(R.status != 1 || (nrep == 0 && status != 0), "C07(2): complete malformed netstring => exit 100, no reply");
   CHECK(R.status == 2 || nrep == 0, "C07(2): no reply before the package is complete");
   if (R.status == 2 && !res_trouble) {
-    CHECK((status == 0 || R.end < N) && n_received == 1 && n_from == 1 && n_close == 1 && !order_bad && !rbad && rs == 0 && flushed == outcount,
+    CHECK((status == 0 || R.end < N) && n_received == 1 && n_from == 1 && n_close == 1 && !order_bad && !rbad && flushed == outcount,
           "C07(2): a well-formed package is handed over in order and answered with well-formed, flushed replies");
     CHECK(!rh_bad && n_rh == R.nelig, "C07(2): rcpthosts is asked about exactly the eligible recipients");
     CHECK(must_fail ? !queued : daemon_fail_calls == 0,
           "C07(2): bad sender / oversize body / no acceptable recipient => nothing queued; otherwise the daemon does not fail the message");
-    CHECK(replies_as_expected(queued), "C07(2): one reply per recipient, in order: K iff acceptable and queued, D for policy, else the queue's class");
+    CHECK(!reply_bad && nrep == R.nr, "C07(2): one reply per recipient, in order: K iff acceptable and queued, D for policy, else the queue's class");
     CHECK(!queued || (!msg_bad && dpos == R.bend && dcount == R.dlen && !from_bad && !to_bad && n_to == R.nok),
           "C07(2): K => queue got Received + exactly the decoded body, the sender, and the acceptable recipients in order");
   }
